@@ -171,6 +171,8 @@ void vf_errlog_reset(vf_errlog *l)
     l->bad_format = 0;
 }
 
+void (*vf_errfn_hook)(void);
+
 void vf_errfn(const char *message, void *arg, int category)
 {
     vf_errlog *l = arg;
@@ -194,6 +196,16 @@ void vf_errfn(const char *message, void *arg, int category)
     ++l->count;
     if (category != 4 /* VNAERR_WARNING */)
 	++l->nonwarn;
+    /* an application callback may look at the object the error is about
+       (to log its file name, its size): the driver's hook does that */
+    if (vf_errfn_hook != NULL) {
+	static int busy;
+	if (!busy) {
+	    busy = 1;
+	    vf_errfn_hook();
+	    busy = 0;
+	}
+    }
     /* vnaerr(3): "The library sets errno before calling error_fn and again
        before returning failure": an application callback may disturb errno
        (failing log write); leave a value no libvna path produces */
